@@ -565,6 +565,39 @@ def const_value(node, env=None):
             args = [const_value(a, env) for a in node.args]
             kw = {k.arg: const_value(k.value, env) for k in node.keywords}
             return fmt.format(*args, **kw)
+    if isinstance(node, (ast.GeneratorExp, ast.ListComp, ast.SetComp)) and \
+            not any(g.is_async for g in node.generators):
+        out = []
+
+        def scoped(bound):
+            def look(d):
+                if d in bound:
+                    return bound[d]
+                return env(d) if env is not None else MISSING
+            return look
+
+        def bind(target, value, bound):
+            if isinstance(target, ast.Name):
+                bound[target.id] = value
+            elif isinstance(target, (ast.Tuple, ast.List)) and \
+                    len(target.elts) == len(value):
+                for t, v in zip(target.elts, value):
+                    bind(t, v, bound)
+            else:
+                raise AnalysisError('fold-failure: %s' % src(node))
+
+        def rec(i, bound):
+            if i == len(node.generators):
+                out.append(const_value(node.elt, scoped(bound)))
+                return
+            g = node.generators[i]
+            for v in const_value(g.iter, scoped(bound)):
+                b = dict(bound)
+                bind(g.target, v, b)
+                if all(const_value(c, scoped(b)) for c in g.ifs):
+                    rec(i + 1, b)
+        rec(0, {})
+        return set(out) if isinstance(node, ast.SetComp) else out
     if isinstance(node, (ast.Name, ast.Attribute)) and env is not None:
         d = dotted(node)
         if d is not None:
